@@ -156,6 +156,14 @@ func idLists(w *world) [][]string {
 	if len(w.ids) >= 2 {
 		ls = append(ls, []string{w.ids[1], w.ids[0]}, append([]string{}, w.ids...))
 	}
+	if len(w.ids) >= 3 {
+		// every pair (a list that names a message the operation is defined for next to one it is not)
+		for i := range w.ids {
+			for j := i + 1; j < len(w.ids); j++ {
+				ls = append(ls, []string{w.ids[i], w.ids[j]})
+			}
+		}
+	}
 	return ls
 }
 
@@ -174,10 +182,12 @@ func runPop(r *runner.Run, sys *qsys.Sys, ks []kind, pop []int, fs []qmodel.Filt
 		popDesc[i] = fmt.Sprintf("%s:%+v", w.ids[i], ks[ki])
 	}
 	dirty := false
+	quiet := 0 // operations since the population was built that reported no change
 	try := func(op qmodel.Op) {
 		if dirty {
 			w, why = build(sys, ks, pop)
 			c.rebuilds++
+			quiet = 0
 			if why != "" {
 				r.Violation("population-build:"+sys.Backend, why, map[string]any{"population": pop}, nil)
 				return
@@ -214,7 +224,14 @@ func runPop(r *runner.Run, sys *qsys.Sys, ks []kind, pop []int, fs []qmodel.Filt
 			key := fmt.Sprintf("%s:%s:%s", sys.Backend, op.Kind, firstWords(why, 5))
 			r.Violation(key, fmt.Sprintf("[%s] population %v, %s: %s", sys.Backend, popDesc, op, why),
 				map[string]any{"engine": "enum", "backend": sys.Backend, "population": popDesc, "op": op.String()}, nil)
+			return
 		}
+		if !dirty {
+			quiet++
+			return
+		}
+		// the operation changed messages and counts + listing are right: is every other message still served later?
+		probeLater(r, sys, ks, pop, popDesc, w, &op, quiet)
 	}
 	for _, kindName := range []string{"cancelf", "requeuef", "resumef"} {
 		for _, f := range fs {
@@ -225,6 +242,11 @@ func runPop(r *runner.Run, sys *qsys.Sys, ks []kind, pop []int, fs []qmodel.Filt
 		for _, l := range idLists(w) {
 			try(qmodel.Op{Kind: kindName, IDs: l})
 		}
+	}
+	if !dirty && quiet > 0 {
+		// the trailing run of operations that reported no change (previews, misses, lookups) must not have changed
+		// what later operations do either
+		probeLater(r, sys, ks, pop, popDesc, w, nil, quiet)
 	}
 }
 
@@ -315,6 +337,7 @@ func TestCheck(t *testing.T) {
 	fs := filters(r, routes, targets)
 	const shards = 16
 	deadline := r.Deadline(80*time.Second, 13*time.Minute)
+	budget := time.Until(deadline) // the same for the parent and for every job (each counts from its own start)
 	if only := os.Getenv("VERIF_C14_ONLY"); only == "mcp-proxy" {
 		// development aid: just the "MCP through the Admin API proxy" part; such a run is never a complete check
 		if _, child := runner.IsShard(); !child {
@@ -368,7 +391,10 @@ func TestCheck(t *testing.T) {
 	if _, child := runner.IsShard(); child {
 		return
 	}
-	r.RunJobs(shards, shards, time.Until(deadline)+3*time.Minute)
+	// a job counts its budget from its own start and may add two minutes of retention work and the population it was in
+	// when the budget ended: the limit is counted from here, not from the start of the parent (which has already spent
+	// time on the two-handle part), so that a loaded machine ends with exhaustive:false and not with a killed job
+	r.RunJobs(shards, shards, budget+5*time.Minute)
 	if _, child := runner.IsShard(); !child {
 		rt := make(chan struct{})
 		go func() { defer close(rt); retentionLayersPart(r) }() // retention scenarios through Admin HTTP / MCP, next to the admin part
@@ -381,7 +407,7 @@ func TestCheck(t *testing.T) {
 		<-px
 	}
 	r.Set("selectors_per_population", len(fs)*3)
-	r.Set("rule", fmt.Sprintf("every multiset of <= %d messages over route x target x state(5) x received_at{T0,T1; ties via equal kinds} built with real operations, crossed with every filter route{-,r1,r2} x target{-,t1} x state{-,5} x before{-,T0,T1,T1+1ns} x limit{0,1,2} x preview for cancel/requeue/resume-by-filter and id lists (hit, miss, blank, duplicate, padded, all) for cancel/requeue/resume/dlq requeue/dlq delete/lookup, on MemoryStore and SQLiteStore; plus bulk populations 101/1000/1001 x limit{0,100,1000,1001,-5}; oracle = qmodel selection (newest first, id desc in ties, capped, allowed states only) with a full private-state snapshot comparison; non-trivial = distinct (operation, changed count, matched count) classes", size))
+	r.Set("rule", fmt.Sprintf("every multiset of <= %d messages over route x target x state(5) x received_at{T0,T1; ties via equal kinds} built with real operations, crossed with every filter route{-,r1,r2} x target{-,t1} x state{-,5} x before{-,T0,T1,T1+1ns} x limit{0,1,2} x preview for cancel/requeue/resume-by-filter and id lists (hit, miss, blank, duplicate, padded, reversed, every pair, all) for cancel/requeue/resume/dlq requeue/dlq delete/lookup, on MemoryStore and SQLiteStore; plus bulk populations 101/1000/1001 x limit{0,100,1000,1001,-5}; oracle = qmodel selection (newest first, id desc in ties, capped, allowed states only) with a full private-state snapshot comparison; every operation that changed messages (and the trailing run of no-change operations of each population) is continued with dequeue-all, resume+requeue all ids, dequeue-all, clock past every lease, dequeue-all, each step judged by qmodel (an untouched message is still served later); non-trivial = distinct (operation, changed count, matched count) classes", size))
 	r.Assume("SQLite quick tier uses the reduced kind set (one target); thorough uses the full set")
 	r.Assume("Admin HTTP / MCP parsing layer in front of these store calls is exercised by C15/C20 and the admin part of this check when present")
 	r.Finish()
